@@ -80,11 +80,101 @@ def gen_cases(tier, seed):
                 for bk, bl in (("default", None), ("post", [POST]), ("redirect", [REDIR]), ("soap", [SOAP]), ("post+redirect", [POST, REDIR]), ("artifact", [ART])):
                     cid = "%s-%s-%s-b:%s" % (lname, typ, issuer.split("//")[1].split(".")[0], bk)
                     cases.append({"id": cid, "sig": [lname, typ, issuer, bk], "layout": lname, "type": typ, "issuer": issuer, "bindings": bl})
+    for k in range(8 if tier == "quick" else 64):
+        cases.append({"id": "refresh-%d" % k, "sig": ["refresh", k], "type": "refresh", "k": k})
     return cases
 
 
 def setup_worker(ctx):
     ctx.fedcache = fed.Cache()
+
+
+def run_refresh(case, ctx):
+    """one long-lived Server whose SP metadata file is replaced and loaded again: answers given before the refresh must not survive it"""
+    import os
+    from saml2_tophat import samlp, saml
+    rng = random.Random("%s/%s" % (ctx.seed, case["id"]))
+    path = os.path.join(ctx.scratch, "c09-refresh-%s.xml" % case["k"])
+
+    def write(layout):
+        ents = [{"eid": eid, "sp": {"keys": [("signing", 1 if eid == fed.SP_EID else 3)], "acs": d["acs"], "slo": d["slo"], "mni": d["mni"]}} for eid, d in layout.items()]
+        with open(path, "w") as f:
+            f.write(mdgen.entities(ents))
+
+    gen0 = {k: {kk: list(vv) for kk, vv in v.items()} for k, v in LAYOUTS["L1"].items()}
+    write(gen0)
+    idc = fed.idp_conf()
+    idc["metadata"] = {"local": [path]}
+    from saml2_tophat.config import IdPConfig
+    from saml2_tophat.server import Server
+    import copy
+    idp = Server(config=IdPConfig().load(copy.deepcopy(idc)))
+    viol, counters = [], {"refresh_steps": 0, "answered": 0, "refused": 0}
+
+    def ask(layout, issuer, url, index, pb, when):
+        req = samlp.AuthnRequest(id="id-r", version="2.0", issue_instant="2020-01-01T00:00:00Z", issuer=saml.Issuer(text=issuer),
+                                 assertion_consumer_service_url=url, assertion_consumer_service_index=index, protocol_binding=pb)
+        try:
+            info = idp.response_args(req)
+        except Exception as e:
+            info = None
+        counters["refresh_steps"] += 1
+        counters["answered" if info else "refused"] += 1
+        regd = layout.get(issuer, {}).get("acs", [])
+        desc = "%s: authn issuer=%s url=%r index=%r binding=%s" % (when, issuer, url, index, (pb or "-").rsplit(":", 1)[-1])
+        if info is None:
+            return
+        b, d = info.get("binding"), info.get("destination")
+        locs = [e[1] for e in regd if e[0] == b]
+        if issuer not in layout:
+            viol.append({"key": "C09/destination-for-deregistered-requester-after-refresh", "what": desc + " -> %s" % d})
+        elif d not in locs:
+            viol.append({"key": "C09/withdrawn-endpoint-answered-after-refresh", "what": desc + " -> %r; currently registered for %s: %r" % (d, b, locs)})
+        elif url and d != url:
+            viol.append({"key": "C09/supplied-url-replaced-instead-of-refused", "what": desc + " -> %r" % d})
+        elif index is not None and not url and d not in [e[1] for e in regd if e[0] == b and str(e[2]) == index]:
+            viol.append({"key": "C09/withdrawn-index-answered-after-refresh", "what": desc + " -> %r" % d})
+
+    def probes(layout_before):
+        out = []
+        for issuer, d in layout_before.items():
+            for b, loc, idx, dflt in d["acs"]:
+                out.append((issuer, loc, None, None))
+                out.append((issuer, None, str(idx), None))
+                out.append((issuer, loc, None, b))
+            out.append((issuer, None, None, None))
+        return out
+
+    current = gen0
+    for g in range(3):
+        ps = probes(current)
+        for (issuer, url, idx, pb) in ps:                     # prime every lookup on the current generation
+            ask(current, issuer, url, idx, pb, "generation %d" % g)
+        nxt = {k: {kk: list(vv) for kk, vv in v.items()} for k, v in current.items()}
+        change = rng.choice(["withdraw-endpoint", "deregister-sp", "move-endpoint", "reindex"])
+        victim = rng.choice(sorted(nxt))
+        if change == "deregister-sp" and len(nxt) > 1:
+            del nxt[victim]
+        elif change == "withdraw-endpoint" and len(nxt[victim]["acs"]) > 1:
+            nxt[victim]["acs"].pop(rng.randrange(1, len(nxt[victim]["acs"])))
+        elif change == "move-endpoint":
+            b, loc, idx, dflt = nxt[victim]["acs"][0]
+            nxt[victim]["acs"][0] = (b, loc + "/v%d" % (g + 2), idx, dflt)
+        else:
+            nxt[victim]["acs"] = [(b, loc, idx + 10, dflt) for b, loc, idx, dflt in nxt[victim]["acs"]]
+        write(nxt)
+        idp.metadata.load("local", path)
+        for (issuer, url, idx, pb) in ps:                     # the same requests, now against the refreshed metadata
+            ask(nxt, issuer, url, idx, pb, "after refresh %d (%s %s)" % (g + 1, change, victim.split("//")[1].split(".")[0]))
+        current = nxt
+        if viol:
+            break
+    os.unlink(path)
+    uniq = {}
+    for v in viol:
+        uniq.setdefault(v["key"], v)
+    return {"outcome": "violations" if viol else "held", "nontrivial": counters["answered"] > 0, "violations": list(uniq.values()), "counters": counters,
+            "evals": counters["refresh_steps"], "sigs": [["refresh", case["k"]]]}
 
 
 def _idp(ctx, lname):
@@ -98,6 +188,8 @@ def _idp(ctx, lname):
 
 def run_case(case, ctx):
     from saml2_tophat import samlp, saml
+    if case.get("type") == "refresh":
+        return run_refresh(case, ctx)
     idp = _idp(ctx, case["layout"])
     layout = LAYOUTS[case["layout"]]
     issuer = saml.Issuer(text=case["issuer"])
